@@ -1428,7 +1428,43 @@ class Frame:
             if ok:
                 self.comp(gens, i + 1, en, emit, g)
 
+    def _setdefault(self, call, env):
+        """d.setdefault(k, default) with a symbolic key: (guarded dict, key) after storing the default where absent"""
+        base = self.ev(call.func.value, env)
+        key = self.ev(call.args[0], env)
+        default = self.ev(call.args[1], env) if len(call.args) > 1 else None
+        if not is_sym(key) and type(base).__name__ != "GDict":
+            return None
+        if _plain_mapping(base):
+            if not isinstance(call.func.value, ast.Name):
+                raise Unsupported("setdefault with a symbolic key on an unnamed mapping")
+            base = _to_gdict(base)
+            env[call.func.value.id] = base
+        if type(base).__name__ != "GDict":
+            raise Unsupported("setdefault with a symbolic key")
+        absent = truth(base.contains(key))
+        absent = znot(absent) if not isinstance(absent, bool) else (not absent)
+        if absent is not False:
+            # store the default only where the key is absent
+            filled = base._copy()
+            filled.store(key, default)
+            merged = filled._merge(zbool(absent), base) if absent is not True else filled
+            base.slots = merged.slots
+        return base, key
+
     def call(self, e, env):
+        if (isinstance(e.func, ast.Attribute) and e.func.attr == "append" and isinstance(e.func.value, ast.Call)
+                and isinstance(e.func.value.func, ast.Attribute) and e.func.value.func.attr == "setdefault"
+                and e.func.value.args and not e.func.value.keywords):
+            got = self._setdefault(e.func.value, env)
+            if got is not None:
+                base, key = got
+                return base.ref(key).append(*[self.ev(a, env) for a in e.args])
+        if (isinstance(e.func, ast.Attribute) and e.func.attr == "setdefault" and e.args and not e.keywords):
+            got = self._setdefault(e, env)
+            if got is not None:
+                base, key = got
+                return base.lookup(key)
         if (isinstance(e.func, ast.Attribute) and e.func.attr == "append" and isinstance(e.func.value, ast.Subscript)):
             base = self.ev(e.func.value.value, env)
             if type(base).__name__ == "GDict":
